@@ -33,7 +33,7 @@ from hypothesis import strategies as st
 
 import xknx.dpt as _dpt_pkg
 from xknx.dpt import DPTBase, DPTComplex, DPTEnum, DPTNumeric, DPTString
-from xknx.dpt.dpt import DPTComplexData, DPTEnumData
+from xknx.dpt.dpt import DPTComplexData
 
 
 class Unbuildable(Exception):
